@@ -27,7 +27,6 @@ import (
 	"strconv"
 	"strings"
 
-	"github.com/grpc-ecosystem/grpc-gateway/v2/utilities"
 	"github.com/renbou/grpcbridge/bridgedesc"
 	"github.com/renbou/grpcbridge/transcoding"
 	"github.com/renbou/grpcbridge/verifx"
@@ -351,7 +350,7 @@ func (Area) Exec(input string) string {
 			seqs = append(seqs, strings.Split(string(common.MustUnHex(f[2+i])), "."))
 		}
 		seq := strings.Split(string(common.MustUnHex(f[2+n])), ".")
-		return strconv.FormatBool(utilities.NewDoubleArray(seqs).HasCommonPrefix(seq))
+		return strconv.FormatBool(verifx.QueryFilterHasCommonPrefix(seqs, seq))
 	}
 	return "BADOP"
 }
